@@ -391,3 +391,71 @@ def path_facts(path):
         if e.kind == 'cond':
             add(resolve(e.node, e.env), e.truth)
     return out
+
+
+class Atoms(object):
+    """Truth-table view of a path: named atomic conditions (each given in positive and negated spellings, compared by norm.same with path-local names substituted)
+    over which the tests of a path are boolean formulas; `possible(path, assignment)` tells whether the path can be taken when the atoms have the given truth values
+    (tests that mention anything else are left open).  De Morgan respellings, swapped branches, split conjunctions and hoisted booleans all come out the same."""
+    def __init__(self, atoms, inline_defs=None):
+        self.atoms = atoms          # name -> (list of positive texts, list of negated texts)
+        self.defs = inline_defs or {}
+        self._f = {}
+        self._p = {}
+
+    def formula(self, x):
+        key = ast.dump(x)
+        if key in self._f:
+            return self._f[key]
+        r = None
+        if isinstance(x, ast.BoolOp):
+            r = ('and' if isinstance(x.op, ast.And) else 'or', [self.formula(v) for v in x.values])
+        elif isinstance(x, ast.UnaryOp) and isinstance(x.op, ast.Not):
+            r = ('not', [self.formula(x.operand)])
+        elif isinstance(x, ast.Compare) and len(x.ops) > 1:
+            terms = [x.left] + list(x.comparators)
+            r = ('and', [self.formula(ast.Compare(left=terms[i], ops=[x.ops[i]], comparators=[terms[i + 1]])) for i in range(len(x.ops))])
+        else:
+            y = N.inline(x, self.defs) if self.defs else x
+            for nm, (pos, neg) in self.atoms.items():
+                if N.same(y, *pos):
+                    r = ('atom', nm, True)
+                    break
+                if neg and N.same(y, *neg):
+                    r = ('atom', nm, False)
+                    break
+        self._f[key] = r
+        return r
+
+    def val(self, f, env):
+        if f is None:
+            return None
+        if f[0] == 'atom':
+            v = env.get(f[1])
+            return None if v is None else (v == f[2])
+        vs = [self.val(g, env) for g in f[1]]
+        if f[0] == 'not':
+            return None if vs[0] is None else not vs[0]
+        if f[0] == 'and':
+            return False if any(v is False for v in vs) else (None if any(v is None for v in vs) else True)
+        return True if any(v is True for v in vs) else (None if any(v is None for v in vs) else False)
+
+    def conds(self, path):
+        k = id(path)
+        if k not in self._p:
+            self._p[k] = (path, [(self.formula(resolve(e.node, e.env)), e.truth) for e in path if e.kind == 'cond'])
+        return self._p[k][1]
+
+    def possible(self, path, env):
+        return all(self.val(f, env) in (None, tr) for f, tr in self.conds(path) if f is not None)
+
+    def models(self, path):
+        """every assignment of the atoms under which the path can be taken"""
+        import itertools
+        names = sorted(self.atoms)
+        out = []
+        for vals in itertools.product((True, False), repeat=len(names)):
+            env = dict(zip(names, vals))
+            if self.possible(path, env):
+                out.append(env)
+        return out
